@@ -50,7 +50,21 @@ fn env_u64(name: &str, default: u64) -> u64 {
   std::env::var(name).ok().and_then(|s| s.parse::<u64>().ok()).unwrap_or(default)
 }
 
+/// Every process of the simulator lives under a limit on its address space (4 GiB; VERIF_MEMCAP_MB changes it, 0 lifts
+/// it): code under test that allocates without bound then ends as a failed allocation - an abort the parent attributes
+/// to the run - instead of taking the machine down.
+fn cap_memory() {
+  let mb: u64 = std::env::var("VERIF_MEMCAP_MB").ok().and_then(|v| v.parse().ok()).unwrap_or(4096);
+  if mb > 0 {
+    let lim = libc::rlimit { rlim_cur: mb * 1024 * 1024, rlim_max: mb * 1024 * 1024 };
+    unsafe {
+      libc::setrlimit(libc::RLIMIT_AS, &lim);
+    }
+  }
+}
+
 fn main() {
+  cap_memory();
   let args: Vec<String> = std::env::args().skip(1).collect();
   let code = real_main(&args);
   std::process::exit(code);
@@ -134,6 +148,10 @@ fn real_main(args: &[String]) -> i32 {
       let doc: serde_json::Value = serde_json::from_str(&std::fs::read_to_string(&args[1]).unwrap()).unwrap();
       use std::io::Write;
       std::io::stdout().write_all(&c12::debug_text(&doc["plan"])).unwrap();
+      0
+    }
+    "debug-workload" => {
+      debug_workload();
       0
     }
     "debug-feel" => {
@@ -320,6 +338,37 @@ pub fn debug_builds() {
     }
   }
   println!("{} models, {} do not build", models.len(), bad);
+}
+
+/// Prints the result of every workload row (model, invocable, input of the compliance tests) and of 4000 generated
+/// request contexts: two trees are compared by the difference of these listings (used to judge a repair).
+pub fn debug_workload() {
+  driver::install_panic_hook();
+  let text = std::fs::read_to_string(c20::data_dir().join("c20_workload.json")).unwrap_or_default();
+  let rows: serde_json::Value = serde_json::from_str(&text).unwrap_or(serde_json::Value::Null);
+  let mut evaluators: std::collections::BTreeMap<String, Option<std::sync::Arc<dmntk_model_evaluator::ModelEvaluator>>> = Default::default();
+  for it in rows.as_array().cloned().unwrap_or_default() {
+    let (m, inv, ctx) = (it["model"].as_str().unwrap_or("").to_string(), it["invocable"].as_str().unwrap_or("").to_string(), it["ctx"].as_str().unwrap_or("").to_string());
+    let me = evaluators.entry(m.clone()).or_insert_with(|| c20::model_text(&m).and_then(|t| dmntk_model::parse(&t).ok()).and_then(|d| dmntk_model_evaluator::ModelEvaluator::new(&d).ok())).clone();
+    let line = match me {
+      Some(me) => std::panic::catch_unwind(std::panic::AssertUnwindSafe(|| match dmntk_feel_evaluator::evaluate_context(&dmntk_feel::Scope::default(), &ctx) {
+        Ok(input) => format!("{:?}", me.evaluate_invocable(&inv, &input)),
+        Err(e) => format!("input error {}", e),
+      }))
+      .unwrap_or_else(|_| "PANIC".to_string()),
+      None => "model does not build".to_string(),
+    };
+    println!("{}|{}|{} => {}", m, inv, ctx, line);
+  }
+  for seed in 0..4000u64 {
+    let text = c13::generated_request_context(seed);
+    let line = std::panic::catch_unwind(|| match dmntk_feel_evaluator::evaluate_context(&dmntk_feel::Scope::default(), &text) {
+      Ok(c) => format!("{:?}", c),
+      Err(e) => format!("error {}", e),
+    })
+    .unwrap_or_else(|_| "PANIC".to_string());
+    println!("gen {} {} => {}", seed, text, line);
+  }
 }
 
 #[allow(dead_code)]
